@@ -7,13 +7,16 @@ package rig
 
 import (
 	"context"
+	"errors"
 	"fmt"
 	"os"
 	"path/filepath"
+	"sync/atomic"
 	"time"
 
 	ipfscluster "github.com/ipfs/ipfs-cluster"
 	"github.com/ipfs/ipfs-cluster/allocator/ascendalloc"
+	"github.com/ipfs/ipfs-cluster/api"
 	"github.com/ipfs/ipfs-cluster/consensus/raft"
 	"github.com/ipfs/ipfs-cluster/datastore/inmem"
 
@@ -47,6 +50,7 @@ type RaftOpts struct {
 type RaftPeer struct {
 	Cluster *ipfscluster.Cluster
 	Cons    *raft.Consensus
+	Switch  *SwitchableConsensus
 	RaftCfg *raft.Config
 	Host    host.Host
 	DHT     *dual.DHT
@@ -57,6 +61,39 @@ type RaftPeer struct {
 	Mon     *FakeMonitor
 	API     *FakeAPI
 	Dir     string
+}
+
+// SwitchableConsensus is what the Cluster (hence its "Consensus" RPC service,
+// the endpoint followers redirect to) gets as consensus component: the real
+// raft.Consensus, whose LogPin/LogUnpin endpoint the harness can make refuse.
+type SwitchableConsensus struct {
+	*raft.Consensus
+	fail int32
+}
+
+// FailRPC switches the refusal of LogPin/LogUnpin on or off.
+func (s *SwitchableConsensus) FailRPC(on bool) {
+	var v int32
+	if on {
+		v = 1
+	}
+	atomic.StoreInt32(&s.fail, v)
+}
+
+// LogPin refuses when switched, else delegates to the real component.
+func (s *SwitchableConsensus) LogPin(ctx context.Context, p *api.Pin) error {
+	if atomic.LoadInt32(&s.fail) == 1 {
+		return errors.New("verif: Consensus RPC endpoint refusing")
+	}
+	return s.Consensus.LogPin(ctx, p)
+}
+
+// LogUnpin refuses when switched, else delegates to the real component.
+func (s *SwitchableConsensus) LogUnpin(ctx context.Context, p *api.Pin) error {
+	if atomic.LoadInt32(&s.fail) == 1 {
+		return errors.New("verif: Consensus RPC endpoint refusing")
+	}
+	return s.Consensus.LogUnpin(ctx, p)
 }
 
 // NewKey creates an identity.
@@ -76,7 +113,7 @@ func RaftConfig(dir string) *raft.Config {
 	cfg := &raft.Config{}
 	cfg.Default()
 	cfg.DataFolder = filepath.Join(dir, "raft")
-	cfg.WaitForLeaderTimeout = 30 * time.Second
+	cfg.WaitForLeaderTimeout = 10 * time.Second
 	cfg.NetworkTimeout = 5 * time.Second
 	cfg.CommitRetries = 2
 	cfg.CommitRetryDelay = 100 * time.Millisecond
@@ -152,7 +189,8 @@ func NewRaftPeer(o RaftOpts) (*RaftPeer, error) {
 	r.IPFS = NewFakeIPFS()
 	r.Tracker = &FakeTracker{ID: r.ID}
 	inf := &FakeInformer{MetricName: "freespace", Value: "100"}
-	cl, err := ipfscluster.NewCluster(ctx, h, d, cfg, r.Store, r.Cons, []ipfscluster.API{r.API}, r.IPFS, r.Tracker,
+	r.Switch = &SwitchableConsensus{Consensus: r.Cons}
+	cl, err := ipfscluster.NewCluster(ctx, h, d, cfg, r.Store, r.Switch, []ipfscluster.API{r.API}, r.IPFS, r.Tracker,
 		r.Mon, ascendalloc.NewAllocator(), []ipfscluster.Informer{inf}, &FakeTracer{})
 	if err != nil {
 		return fail(err)
